@@ -9,7 +9,7 @@ pub fn prop() -> Prop {
     Prop {
         id: "C05",
         level: "exploration",
-        rule: "shapes: complete enumerations (rectangles 0..=13^2, circles d<=64 (128 thorough), ellipses 0..=40^2 (64^2), equal-corner rounded rectangles w,h<=12 rx,ry<=7, triangles on a 6x6 (7x7) grid) at positions straddling the axes, plus proptest tapes for rounded rectangles with four independent radii, larger circles/ellipses, triangles to +-40 and sectors d<=48 with integer and fractional angles (default and fixed_point builds). Oracle: points() as a sequence vs the set {q in bbox+margin 3 : contains(q)}: equal sets, strictly increasing in (y,x), inside bounding_box(), contains false in the margin. Non-trivial: >= 3 points and the shape is not the full bounding rectangle. Zero-area triangles are excluded by construction (third vertex moved off the line).",
+        rule: "shapes: complete enumerations (rectangles 0..=13^2, circles d<=64 (128 thorough), ellipses 0..=40^2 (64^2), equal-corner rounded rectangles w,h<=12 rx,ry<=7, triangles on a 6x6 (7x7) grid) at positions straddling the axes, plus proptest tapes for shapes of 100..=500 px (sub-check large_shapes), rounded rectangles with four independent radii, larger circles/ellipses, triangles to +-40 and sectors d<=48 with integer and fractional angles (default and fixed_point builds). Oracle: points() as a sequence vs the set {q in bbox+margin 3 : contains(q)}: equal sets, strictly increasing in (y,x), inside bounding_box(), contains false in the margin. Non-trivial: >= 3 points and the shape is not the full bounding rectangle. Zero-area triangles are excluded by construction (third vertex moved off the line).",
         assumptions: vec![
             "contains() is probed on the bounding box plus a margin of 3 pixels, not on the whole plane",
         ],
@@ -19,10 +19,11 @@ pub fn prop() -> Prop {
             Sub::enumerate("ellipses", ellipses),
             Sub::enumerate("rrect_equal", rrect_equal),
             Sub::enumerate("triangles_grid", triangles_grid),
-            Sub::tape("rrect_random", 24, 100_000, 1_500_000, rrect_random),
-            Sub::tape("round_random", 8, 20_000, 300_000, round_random),
-            Sub::tape("triangles_random", 12, 100_000, 1_500_000, triangles_random),
-            Sub::tape("sectors", 10, 60_000, 900_000, sectors).with_fp(),
+            Sub::tape("rrect_random", 24, 100_000, 5_000_000, rrect_random),
+            Sub::tape("round_random", 8, 20_000, 1_000_000, round_random),
+            Sub::tape("triangles_random", 12, 100_000, 5_000_000, triangles_random),
+            Sub::tape("sectors", 10, 60_000, 3_000_000, sectors).with_fp(),
+            Sub::tape("large_shapes", 24, 800, 40_000, large_shapes),
         ],
     }
 }
@@ -265,5 +266,18 @@ fn sectors(d: &mut Dec, cx: &mut Cx) -> Res {
     cx.class(if a1.abs() >= 360.0 { "full" } else if a1 == 0.0 { "zero_sweep" } else { "partial" });
     let r = check_shape(&s)?;
     cx.nontrivial(r.n_points >= 3 && !r.full_rect && a1.abs() < 360.0);
+    Ok(())
+}
+
+
+/// Shapes of 100..=500 px (the other sub-checks stay below 200): truncation or overflow that only
+/// shows at display scale.
+fn large_shapes(d: &mut Dec, cx: &mut Cx) -> Res {
+    let kind = d.pick(&[1u32, 2, 3, 4, 7, 0]);
+    let s = gen::large_shape(d, kind, 100, 500);
+    cx.describe(|| format!("{:?}", s));
+    cx.class(s.kind());
+    let r = check_shape(&s)?;
+    cx.nontrivial(r.n_points >= 3 && !r.full_rect);
     Ok(())
 }
